@@ -8,6 +8,7 @@ pub fn oracle_line(line: &str) -> String {
     let mut t = Toks::new(line);
     match t.next() {
         Some("env") => oracle_env(&mut t).unwrap_or_else(|| "bad".into()),
+        Some("call") => oracle_call(&mut t).unwrap_or_else(|| "n/a".into()),
         _ => "n/a".into(),
     }
 }
@@ -52,4 +53,12 @@ fn oracle_env(t: &mut Toks) -> Option<String> {
         out.push(ans);
     }
     Some(out.join(" , "))
+}
+
+/// side information for `call` lines of the ordering builtins: is the compared collection in the Safe domain?
+fn oracle_call(t: &mut Toks) -> Option<String> {
+    let _off = t.next()?; let name = t.name()?; let n = t.usize()?;
+    if !["sort", "max", "min", "between"].contains(&name.as_str()) { return None; }
+    let mut args = vec![]; for _ in 0..n { args.push(t.value()?); }
+    Some(format!("info {}", if crate::laws::is_safe(&args) { "safe" } else { "unsafe" }))
 }
